@@ -233,51 +233,78 @@ def agrees(result, exp):
 
 def replay_macros(exe, failures):
     kinds = probe_errors(exe)
-    tried = []
+    tried, batch, seen = [], [], set()
     for f in failures:
         sc = f.get("scenario")
         if not sc or sc.get("unavailable") or sc.get("kind") != "macro":
-            tried.append({"label": f["label"], "skipped": (sc or {}).get("unavailable", "no scenario")})
+            if len(tried) < 40:
+                tried.append({"label": f["label"], "skipped": (sc or {}).get("unavailable", "no scenario")})
             continue
         try:
             req, exp, src = concrete_macro(sc, kinds)
         except KeyError as e:
-            tried.append({"label": f["label"], "skipped": f"cannot concretise: {e}"})
+            if len(tried) < 40:
+                tried.append({"label": f["label"], "skipped": f"cannot concretise: {e}"})
             continue
-        out, why = run(exe, "eval", [req])
+        if src in seen:
+            continue
+        seen.add(src)
+        batch.append((f["label"], req, exp, src))
+    if batch:
+        out, why = run(exe, "eval", [b[1] for b in batch])
         if out is None:
-            tried.append({"label": f["label"], "skipped": why})
-            continue
-        res = out[0].get("results", [{}, {}])
-        main, after = res[0], res[1] if len(res) > 1 else {}
-        rec = {"label": f["label"], "source": src, "params": req["params"], "expected": exp, "native": main, "outer_x_afterwards": after}
-        tried.append(rec)
-        if "panic" in main or not agrees(main, exp) or after.get("ok") != "Int(1000)":
-            rec["reproduced"] = True
-            return {"status": "reproduced", "summary": f"`{src}` gave {main}, the property demands {exp}; outer x afterwards {after}", "attempts": tried}
-    return {"status": "not_reproduced" if any("native" in t for t in tried) else "unavailable", "summary": "no concrete instance disagreed natively" if any("native" in t for t in tried) else "no scenario could be made concrete", "attempts": tried}
+            return {"status": "unavailable", "summary": why, "attempts": tried}
+        first = None
+        for (label, req, exp, src), o in zip(batch, out):
+            res = o.get("results", [{}, {}])
+            main, after = res[0], res[1] if len(res) > 1 else {}
+            rec = {"label": label, "source": src, "params": req["params"], "expected": exp, "native": main, "outer_x_afterwards": after}
+            bad = "panic" in main or not agrees(main, exp) or after.get("ok") != "Int(1000)"
+            if bad:
+                rec["reproduced"] = True
+                if first is None:
+                    first = rec
+            if bad or len(tried) < 40:
+                tried.append(rec)
+        if first is not None:
+            return {"status": "reproduced", "summary": f"`{first['source']}` gave {first['native']}, the property demands {first['expected']}; outer x afterwards {first['outer_x_afterwards']}",
+                    "attempts": tried, "concrete_instances_run": len(batch)}
+        return {"status": "not_reproduced", "summary": f"none of {len(batch)} concrete instances disagreed natively", "attempts": tried, "concrete_instances_run": len(batch)}
+    return {"status": "unavailable", "summary": "no scenario could be made concrete", "attempts": tried}
 
 
 # ----------------------------------------------------------------------------- VM
 def replay_vm(exe, failures):
-    tried = []
+    tried, batch, seen = [], [], set()
     for f in failures:
         sc = f.get("scenario")
         if not sc or sc.get("unavailable") or sc.get("kind") != "vm":
-            tried.append({"label": f["label"], "skipped": (sc or {}).get("unavailable", "no scenario")})
+            if len(tried) < 40:
+                tried.append({"label": f["label"], "skipped": (sc or {}).get("unavailable", "no scenario")})
             continue
-        out, why = run(exe, "vm", [sc["request"]])
-        if out is None:
-            tried.append({"label": f["label"], "skipped": why})
+        key = json.dumps(sc["request"], sort_keys=True)
+        if key in seen:
             continue
-        o = out[0]
-        rec = {"label": f["label"], "request": sc["request"], "native": o}
-        tried.append(rec)
-        if "panic" in o or "panic" in o.get("vm", {}) or ("agree" in o and not o["agree"]):
+        seen.add(key)
+        batch.append((f["label"], sc["request"]))
+    if not batch:
+        return {"status": "unavailable", "summary": "no scenario could be made concrete", "attempts": tried}
+    out, why = run(exe, "vm", [b[1] for b in batch])
+    if out is None:
+        return {"status": "unavailable", "summary": why, "attempts": tried}
+    first = None
+    for (label, req), o in zip(batch, out):
+        rec = {"label": label, "request": req, "native": o}
+        bad = "panic" in o or "panic" in o.get("vm", {}) or ("agree" in o and not o["agree"])
+        if bad:
             rec["reproduced"] = True
-            return {"status": "reproduced", "summary": f"VM {o.get('vm')} vs reference {o.get('reference')} on {json.dumps(sc['request'])[:300]}", "attempts": tried}
-    ran = any("native" in t for t in tried)
-    return {"status": "not_reproduced" if ran else "unavailable", "summary": "VM and reference agreed natively on every concrete instance" if ran else "no scenario could be made concrete", "attempts": tried}
+            first = first or rec
+        if bad or len(tried) < 40:
+            tried.append(rec)
+    if first is not None:
+        o = first["native"]
+        return {"status": "reproduced", "summary": f"VM {o.get('vm')} vs reference {o.get('reference')} on {json.dumps(first['request'])[:300]}", "attempts": tried, "concrete_instances_run": len(batch)}
+    return {"status": "not_reproduced", "summary": f"VM and reference agreed natively on all {len(batch)} concrete instances", "attempts": tried, "concrete_instances_run": len(batch)}
 
 
 def replay_value(exe, failures):
